@@ -32,16 +32,6 @@ pub assume_specification<T>[ Option::<T>::unwrap_unchecked ](o: Option<T>) -> (r
     requires o is Some
     ensures Some(r) == o;
 
-/// A2: `Vec::extend` appends the items of the argument in order.  The item sequence of a generic
-/// `IntoIterator` is an uninterpreted function, fixed for `Vec<T>` by the axiom below.
-pub uninterp spec fn vx_into_seq<T, I>(iter: I) -> Seq<T>;
-pub assume_specification<T, A: std::alloc::Allocator, I: IntoIterator<Item = T>>[ <Vec<T, A> as Extend<T>>::extend::<I> ](v: &mut Vec<T, A>, iter: I)
-    ensures final(v)@ == old(v)@ + vx_into_seq::<T, I>(iter);
-#[verifier::external_body]
-pub broadcast proof fn axiom_vec_into_seq<T>(v: Vec<T>)
-    ensures #[trigger] vx_into_seq::<T, Vec<T>>(v) == v@
-{}
-
 /// A2: `slice::Iter::position` returns the first index whose element satisfies the predicate.
 /// Stated over any sequence `s` of the referenced values (tagged with `vx_tag` so that the
 /// quantifier can be instantiated by a one-line hint naming the vector).
